@@ -67,6 +67,8 @@ Q = {
     # edge / face lookup
     "edge_id": ("lookup", lambda m, c, u, v: c.edge_id(u, v), lambda r, s, u, v: r.edge_id(u, v) if r.is_edge(u, v) else None, "exact"),
     "face_id": ("lookup", lambda m, c, *vs: c.face_id(*vs), lambda r, s, *vs: r.face_id(vs), "exact"),
+    "face_id_coll": ("lookup", lambda m, c, *vs: c.face_id(list(vs)), lambda r, s, *vs: r.face_id(vs), "exact"),  # the face as one collection
+    "face_id_row": ("lookup", lambda m, c, f: c.face_id(m.faces[f]), lambda r, s, f: f, "exact"),                 # ... as the stored row itself
     "direct_face": ("lookup", lambda m, c, u, v: c.direct_face(u, v), lambda r, s, u, v: r.direct_face(u, v), "exact"),
     "direct_face_inds": ("lookup", lambda m, c, u, v: c.direct_face(u, v, True), lambda r, s, u, v: list(r.direct_face_inds(u, v)), "exact"),
     "edge_to_faces": ("lookup", lambda m, c, u, v: c.edge_to_faces(u, v), lambda r, s, u, v: [r.direct_face(u, v), r.direct_face(v, u)], "exact"),
@@ -251,7 +253,9 @@ class C01(Sim):
             return [r.choice(ref.faces[f]) if not miss else rv(), f]
         if q in ("f2c", "f1c", "f2f", "f2e", "f2v"):
             return [rf()]
-        if q == "face_id":
+        if q == "face_id_row":
+            return [rf()]
+        if q in ("face_id", "face_id_coll"):
             f = list(ref.faces[rf()])
             if miss:
                 f[r.below(len(f))] = rv()
@@ -336,7 +340,7 @@ class C01(Sim):
                 self.probes["miss_query"] += 1
                 return "non-edge"
             return "border-edge" if ref.is_border_edge(u, v) else "interior-edge"
-        if q == "face_id":
+        if q in ("face_id", "face_id_coll"):
             if ref.face_id(args) is None:
                 self.probes["miss_query"] += 1
                 return "non-face"
